@@ -196,34 +196,58 @@ func doOp(st *gstate, op int, d []byte, salt uint64) uint64 {
 		return hashRes(p, e, 0)
 	case 3:
 		v, p, e := rjson.ReadValue(d)
-		return hashRes(p, e, hashTree(v))
+		x := hashRes(p, e, hashTree(v))
+		if salt>>57&1 == 1 {
+			scribble(v, 0) // the caller owns what it was given (seeded change C18r4-m1: one shared empty map)
+		}
+		return x
 	case 4:
 		v, p, e := rjson.ReadObject(d)
 		if e != nil {
 			return hashRes(p, e, 0)
 		}
-		return hashRes(p, e, hashTree(v))
+		x := hashRes(p, e, hashTree(v))
+		if salt>>57&1 == 1 {
+			scribble(v, 0)
+		}
+		return x
 	case 5:
 		v, p, e := rjson.ReadArray(d)
 		if e != nil {
 			return hashRes(p, e, 0)
 		}
-		return hashRes(p, e, hashTree(v))
+		x := hashRes(p, e, hashTree(v))
+		if salt>>57&1 == 1 {
+			scribble(v, 0)
+		}
+		return x
 	case 6:
 		v, p, e := st.vr.ReadValue(d)
-		return hashRes(p, e, hashTree(v))
+		x := hashRes(p, e, hashTree(v))
+		if salt>>57&1 == 1 {
+			scribble(v, 0)
+		}
+		return x
 	case 7:
 		v, p, e := st.vr.ReadObject(d)
 		if e != nil {
 			return hashRes(p, e, 0)
 		}
-		return hashRes(p, e, hashTree(v))
+		x := hashRes(p, e, hashTree(v))
+		if salt>>57&1 == 1 {
+			scribble(v, 0)
+		}
+		return x
 	case 8:
 		v, p, e := st.vr.ReadArray(d)
 		if e != nil {
 			return hashRes(p, e, 0)
 		}
-		return hashRes(p, e, hashTree(v))
+		x := hashRes(p, e, hashTree(v))
+		if salt>>57&1 == 1 {
+			scribble(v, 0)
+		}
+		return x
 	case 9:
 		scr := &st.scratch
 		if buf == nil { // every optional argument is also exercised as nil
